@@ -124,6 +124,38 @@ def run(ctx):
                     ctx.violation("listed step '%s' cannot be resolved/executed by robsd-exec (rc=%s)" % (nm, rc2),
                                   dict(conf=base, stderr=err2.decode(errors="replace")[-300:]))
                     break
+    # ---- canvas configurations one of whose commands cannot be interpolated (unknown variable, ${builddir}
+    # without a running invocation): whatever -L lists must be resolvable by the runner (listing nothing is fine)
+    for t in range(ctx.n(8, 120)):
+        k = rng.randint(1, 6)
+        bad = rng.randrange(k)
+        badarg = rng.choice(["${nope}", "${builddir}/x", "pre-${no-such}-post", "${step-name}"])
+        base = 'canvas-name "c"\ncanvas-dir "%s"\n' % root
+        for i in range(k):
+            base += 'step "u%d" command { "echo" "%s" }%s\n' % (i, badarg if i == bad else "fine", " parallel" if rng.random() < 0.3 else "")
+        conf = os.path.join(root, "u.conf")
+        with open(conf, "w") as f:
+            f.write(base)
+        rc, out, err = core.run_cmd([os.path.join(d, "robsd-step"), "-L", "-m", "canvas", "-C", conf], env=dict(os.environ, ASAN_OPTIONS="detect_leaks=0"))
+        rep = core.sanitizer_report(err)
+        if rep or rc not in (0, 1):
+            ctx.violation("robsd-step -L: abnormal termination (rc=%s)" % rc, dict(conf=base, rc=rc, report=rep or err.decode(errors="replace")[-300:]))
+            continue
+        kinds["canvas-uninterpolatable-rc%d" % rc] = kinds.get("canvas-uninterpolatable-rc%d" % rc, 0) + 1
+        if rc != 0 and out:
+            ctx.violation("robsd-step -L failed but listed steps", dict(conf=base, stdout=out.decode(errors="replace")[:300]))
+        for l in out.decode().split("\n"):
+            if not l:
+                continue
+            nm = l.split(" ", 1)[1]
+            nm = nm[:-9] if nm.endswith(" parallel") else nm
+            if nm == "u%d" % bad:
+                continue     # this one's own command is the broken one
+            rc2, out2, err2 = core.run_cmd([os.path.join(d, "robsd-exec"), "-m", "canvas", "-C", conf, nm],
+                                           env=dict(os.environ, EXECDIR=stubs, ASAN_OPTIONS="detect_leaks=0"))
+            if rc2 != 0 and b"not found" in err2:
+                ctx.violation("robsd-step -L lists step '%s' but robsd-exec cannot resolve it" % nm, dict(conf=base, rc=rc2, stderr=err2.decode(errors="replace")[-300:]))
+                break
     ans = ctx.model(reqs) if reqs else []
     for q, a, (want, conf) in zip(reqs, ans, obs):
         if a != want:
